@@ -35,8 +35,21 @@
 #include "stir/ExamInfo.h"
 #include "stir/Succeeded.h"
 #include "stir/Bin.h"
+#include "stir/recon_buildblock/PoissonLogLikelihoodWithLinearModelForMeanAndListModeDataWithProjMatrixByBin.h"
+#include "stir/recon_buildblock/PoissonLogLikelihoodWithLinearModelForMeanAndProjData.h"
+#include "stir/recon_buildblock/ProjMatrixByBinUsingRayTracing.h"
+#include "stir/recon_buildblock/ProjMatrixElemsForOneBin.h"
+#include "stir/recon_buildblock/ProjectorByBinPairUsingProjMatrixByBin.h"
+#include "stir/recon_buildblock/DataSymmetriesForBins.h"
+#include "stir/recon_buildblock/BinNormalisation.h"
+#include "stir/recon_buildblock/TrivialBinNormalisation.h"
+#include "stir/recon_buildblock/BinNormalisationFromProjData.h"
+#include "stir/DiscretisedDensity.h"
+#include "stir/Viewgram.h"
 #include <algorithm>
+#include <array>
 #include <cmath>
+#include <dirent.h>
 #include <map>
 #include <set>
 #include <tuple>
@@ -276,7 +289,8 @@ run_impl(const shared_ptr<ProjDataInfo>& lm_pdi,
          const std::vector<Rec>& recs,
          bool has_delayeds,
          const RunCfg& c,
-         shared_ptr<ProjDataInfo>* tpl_after_setup = nullptr)
+         shared_ptr<ProjDataInfo>* tpl_after_setup = nullptr,
+         shared_ptr<ProjData>* out_projdata = nullptr)
 {
   RunResult res;
   const std::string prefix = g_tmpdir + "/r" + std::to_string(++g_run_id);
@@ -371,6 +385,8 @@ run_impl(const shared_ptr<ProjDataInfo>& lm_pdi,
           // "will only store data from the last defined time frame"
           res.frames.resize(nframes);
           res.integral = read_hist(*mem, res.frames[nframes - 1]);
+          if (out_projdata)
+            *out_projdata = mem;
         }
       else
         {
@@ -598,7 +614,7 @@ static void
 oracle_fail(const std::string& text)
 {
   ++g_fails;
-  if (g_fails <= 40)
+  if (g_fails <= (std::getenv("C14_ALL_FAILS") ? 100000 : 40))
     std::fprintf(g_orc, "ORACLE-FAIL %s\n", text.c_str());
 }
 
@@ -789,6 +805,1161 @@ check_hybrid_batches(const RunResult& a, const RunResult& b, const RunCfg& c)
     }
 }
 
+// =============================================================================================
+// FAMILY 2 — the list-mode objective function
+//   PoissonLogLikelihoodWithLinearModelForMeanAndListModeDataWithProjMatrixByBin (real class, driven in memory)
+//   against (b) the REAL PoissonLogLikelihoodWithLinearModelForMeanAndProjData on the REAL LmToProjData histogram of the
+//   same events (the property's last clause, on the implementation), a double-precision textbook evaluation on explicit
+//   matrix rows, (c) the Lean model (ops lmcfg/lmimg/lmbin/lmgps), (d) setter histories against fresh objects.
+// =============================================================================================
+namespace lmo
+{
+typedef DiscretisedDensity<3, float> TargetT;
+typedef PoissonLogLikelihoodWithLinearModelForMeanAndListModeDataWithProjMatrixByBin<TargetT> LMBase;
+typedef PoissonLogLikelihoodWithLinearModelForMeanAndProjData<TargetT> PDObj;
+
+// the list-mode objective with the file-reading part of post_processing() switched off, so that the keys that have no
+// setter ("time frame number", "num_events_to_use") can be given through the object's own keymap (public parse())
+struct LMObj : public LMBase
+{
+  bool post_processing() override { return false; }
+  bool set_keys(int frame_num, long num_events_to_use)
+  {
+    std::ostringstream par;
+    par << "PoissonLogLikelihoodWithLinearModelForMeanAndListModeDataWithProjMatrixByBin Parameters:=\n";
+    par << "time frame number := " << frame_num << "\n";
+    par << "num_events_to_use := " << num_events_to_use << "\n";
+    par << "End PoissonLogLikelihoodWithLinearModelForMeanAndListModeDataWithProjMatrixByBin Parameters:=\n";
+    std::istringstream in(par.str());
+    return this->parse(in);
+  }
+};
+
+struct ImgIdx
+{
+  int z0 = 0, y0 = 0, x0 = 0, nz = 0, ny = 0, nx = 0;
+  void init(const TargetT& im)
+  {
+    BasicCoordinate<3, int> lo, hi;
+    im.get_index_range().get_regular_range(lo, hi);
+    z0 = lo[1], y0 = lo[2], x0 = lo[3];
+    nz = hi[1] - lo[1] + 1, ny = hi[2] - lo[2] + 1, nx = hi[3] - lo[3] + 1;
+  }
+  int size() const { return nz * ny * nx; }
+  int flat(int z, int y, int x) const { return ((z - z0) * ny + (y - y0)) * nx + (x - x0); }
+};
+
+struct BinRow
+{
+  Key key;
+  int basic_view = 0;
+  float a = 0.F; // additive term of the bin (0 if none)
+  float a_last = 0.F; // additive term at the same position in the last TOF bin
+  float nrm = 1.F; // normalisation factor of the bin (1 if trivial)
+  std::vector<std::pair<int, float>> row;
+};
+
+struct Geo
+{
+  int N = 8, R = 1, max_tof = -1, tof_mash = 0, span = 1, views = 4, ntang = 3, nxy = 5, symflags = 31, maxseg = -1;
+  double voxel_factor = 1.;
+  bool additive = false, norm = false;
+  shared_ptr<Scanner> scanner;
+  shared_ptr<ProjDataInfo> pdi;      // geometry of the list-mode data = template of the histogram
+  shared_ptr<ProjDataInfo> pdi_proc; // … reduced to the segments that are processed
+  shared_ptr<ProjDataInfo> pdi_sens; // geometry of the sensitivity (non-TOF clone of pdi_proc for TOF data)
+  shared_ptr<ExamInfo> exam;
+  shared_ptr<TargetT> image;
+  ImgIdx ix;
+  std::vector<float> lam, x;
+  shared_ptr<ProjData> add_data, add_data2, norm_data;
+  std::vector<BinRow> sens_rows; // all bins of pdi_sens
+  std::string str() const
+  {
+    std::ostringstream s;
+    s << "N=" << N << " R=" << R << " tof=" << max_tof << "/" << tof_mash << " span=" << span << " views=" << views << " ntang=" << ntang
+      << " nxy=" << nxy << " sym=" << symflags << " maxseg=" << maxseg << " add=" << additive << " norm=" << norm;
+    return s.str();
+  }
+};
+
+static shared_ptr<ProjMatrixByBinUsingRayTracing>
+make_pm(int symflags)
+{
+  shared_ptr<ProjMatrixByBinUsingRayTracing> pm(new ProjMatrixByBinUsingRayTracing);
+  pm->set_do_symmetry_90degrees_min_phi(symflags & 1);
+  pm->set_do_symmetry_180degrees_min_phi(symflags & 2);
+  pm->set_do_symmetry_swap_segment(symflags & 4);
+  pm->set_do_symmetry_swap_s(symflags & 8);
+  pm->set_do_symmetry_shift_z(symflags & 16);
+  return pm;
+}
+
+static std::vector<float>
+to_vec(const TargetT& im)
+{
+  return std::vector<float>(im.begin_all_const(), im.end_all_const());
+}
+
+static std::string
+hexvec(const std::vector<float>& v)
+{
+  std::string s;
+  for (std::size_t i = 0; i < v.size(); ++i)
+    {
+      if (i)
+        s += ' ';
+      s += vh::hex(v[i]);
+    }
+  return s;
+}
+
+// explicit row of one bin from a matrix object of the same type and symmetry switches as the objective functions use
+static void
+fill_row(BinRow& b, ProjMatrixByBin& pm, const ImgIdx& ix)
+{
+  const Bin bin(std::get<1>(b.key), std::get<2>(b.key), std::get<3>(b.key), std::get<4>(b.key), std::get<0>(b.key), 1.F);
+  ProjMatrixElemsForOneBin row;
+  pm.get_proj_matrix_elems_for_one_bin(row, bin);
+  std::map<int, float> acc;
+  for (auto it = row.begin(); it != row.end(); ++it)
+    {
+      // elements outside the axial range of the image are skipped by ProjMatrixElemsForOneBin::forward/back_project
+      if (it->coord1() < ix.z0 || it->coord1() >= ix.z0 + ix.nz)
+        continue;
+      if (it->coord2() < ix.y0 || it->coord2() >= ix.y0 + ix.ny || it->coord3() < ix.x0 || it->coord3() >= ix.x0 + ix.nx)
+        throw std::runtime_error("matrix element outside the image in x/y");
+      acc[ix.flat(it->coord1(), it->coord2(), it->coord3())] += it->get_value();
+    }
+  b.row.assign(acc.begin(), acc.end());
+  Bin bb = bin;
+  if (!pm.get_symmetries_ptr()->is_basic(bin))
+    pm.get_symmetries_ptr()->find_basic_bin(bb);
+  b.basic_view = bb.view_num();
+}
+
+static shared_ptr<ProjData>
+random_projdata(const shared_ptr<const ExamInfo>& exam, const shared_ptr<ProjDataInfo>& pdi, vh::Rng& rng, double lo, double hi)
+{
+  shared_ptr<ProjData> pd(new ProjDataInMemory(exam, pdi->create_shared_clone()));
+  for (int tof = pdi->get_min_tof_pos_num(); tof <= pdi->get_max_tof_pos_num(); ++tof)
+    for (int seg = pdi->get_min_segment_num(); seg <= pdi->get_max_segment_num(); ++seg)
+      for (int view = pdi->get_min_view_num(); view <= pdi->get_max_view_num(); ++view)
+        {
+          Viewgram<float> v = pd->get_empty_viewgram(view, seg, false, tof);
+          for (int ax = v.get_min_axial_pos_num(); ax <= v.get_max_axial_pos_num(); ++ax)
+            for (int t = v.get_min_tangential_pos_num(); t <= v.get_max_tangential_pos_num(); ++t)
+              v[ax][t] = static_cast<float>(lo + (hi - lo) * rng.unit());
+          pd->set_viewgram(v);
+        }
+  return pd;
+}
+
+static float
+projdata_at(const ProjData& pd, int seg, int view, int ax, int tang, int tof)
+{
+  return pd.get_viewgram(view, seg, false, tof)[ax][tang];
+}
+
+static bool
+make_geo(Geo& g, vh::Rng& rng)
+{
+  static const int Ns[] = { 8, 12, 16 };
+  g.N = Ns[rng.range(0, 2)];
+  g.R = rng.range(1, 3);
+  const int tk = rng.range(0, 4);
+  // non-TOF (2 in 5), 5 TOF bins, 9 mashed by 3 (3 bins), 7 mashed by 1 (7 bins)
+  g.max_tof = tk < 2 ? -1 : (tk == 2 ? 5 : (tk == 3 ? 9 : 7));
+  g.tof_mash = tk < 2 ? 0 : (tk == 3 ? 3 : 1);
+  g.span = (g.R >= 2 && rng.range(0, 2) == 0) ? 3 : 1;
+  g.views = g.N / 2;
+  if (g.N == 16 && rng.range(0, 3) == 0)
+    g.views = 4; // view mashing
+  const int full_tang = g.N / 2 - 1;
+  g.ntang = rng.range(0, 2) == 0 ? std::max(3, full_tang - 2) : full_tang;
+  g.nxy = rng.coin() ? 5 : 7;
+  g.voxel_factor = rng.coin() ? 1. : 0.8;
+  g.symflags = rng.range(0, 3) == 0 ? 31 : rng.range(0, 31);
+  g.additive = rng.range(0, 2) != 0;
+  g.norm = rng.coin();
+  g.scanner = vh::make_scanner(g.N, g.R, g.max_tof);
+  g.pdi = vh::make_pdi(g.scanner, g.span, g.R - 1, g.views, g.ntang, false, g.tof_mash);
+  if (!dynamic_cast<const ProjDataInfoCylindricalNoArcCorr*>(g.pdi.get()))
+    return false;
+  g.maxseg = rng.range(0, 2) == 0 ? rng.range(0, g.pdi->get_max_segment_num()) : -1;
+  g.pdi_proc = g.pdi->create_shared_clone();
+  if (g.maxseg >= 0 && g.maxseg < g.pdi->get_max_segment_num())
+    g.pdi_proc->reduce_segment_range(-g.maxseg, g.maxseg);
+  g.pdi_sens = g.pdi_proc->is_tof_data() ? g.pdi_proc->create_non_tof_clone() : g.pdi_proc->create_shared_clone();
+  g.exam.reset(new ExamInfo);
+  g.exam->imaging_modality = ImagingModality::PT;
+  const float bin_size = g.pdi->get_sampling_in_s(Bin(0, 0, 0, 0));
+  const float voxel = static_cast<float>(bin_size * g.ntang / g.nxy * g.voxel_factor);
+  shared_ptr<VoxelsOnCartesianGrid<float>> im = vh::make_image(*g.pdi, g.scanner->get_default_bin_size() / voxel, g.nxy, 2 * g.R - 1);
+  im->set_exam_info(*g.exam);
+  g.image = im;
+  g.ix.init(*g.image);
+  const int nvox = g.ix.size();
+  g.lam.resize(nvox), g.x.resize(nvox);
+  for (int i = 0; i < nvox; ++i)
+    {
+      g.lam[i] = static_cast<float>(0.25 + 2.5 * rng.unit());
+      g.x[i] = static_cast<float>(0.1 + 1.5 * rng.unit());
+    }
+  std::copy(g.lam.begin(), g.lam.end(), g.image->begin_all());
+  // additive term: a value per bin INCLUDING the TOF bin; normalisation factors: non-TOF data (valid for TOF emission data as well)
+  g.add_data = random_projdata(g.exam, g.pdi, rng, 0.05, 0.85);
+  g.add_data2 = random_projdata(g.exam, g.pdi, rng, 0.05, 0.85);
+  shared_ptr<ProjDataInfo> nontof = g.pdi->is_tof_data() ? g.pdi->create_non_tof_clone() : g.pdi->create_shared_clone();
+  g.norm_data = random_projdata(g.exam, nontof, rng, 0.6, 2.5);
+  // rows of the sensitivity geometry
+  shared_ptr<ProjMatrixByBinUsingRayTracing> pm = make_pm(g.symflags);
+  pm->set_up(g.pdi_sens, g.image);
+  const ProjDataInfo& p = *g.pdi_sens;
+  for (int seg = p.get_min_segment_num(); seg <= p.get_max_segment_num(); ++seg)
+    for (int view = p.get_min_view_num(); view <= p.get_max_view_num(); ++view)
+      for (int ax = p.get_min_axial_pos_num(seg); ax <= p.get_max_axial_pos_num(seg); ++ax)
+        for (int tang = p.get_min_tangential_pos_num(); tang <= p.get_max_tangential_pos_num(); ++tang)
+          {
+            BinRow b;
+            b.key = Key(0, seg, view, ax, tang);
+            fill_row(b, *pm, g.ix);
+            b.nrm = g.norm ? projdata_at(*g.norm_data, seg, view, ax, tang, 0) : 1.F;
+            g.sens_rows.push_back(b);
+          }
+  return true;
+}
+
+// the generator of family 1 (same distribution of records), as a function
+static std::vector<Rec>
+gen_stream(vh::Rng& rng, const Geo& g, int kind, int nrec, std::vector<long>& mark_times, long& t_end, bool& any_delayed)
+{
+  const ProjDataInfoCylindricalNoArcCorr& tpl = dynamic_cast<const ProjDataInfoCylindricalNoArcCorr&>(*g.pdi);
+  std::vector<Rec> recs;
+  const int N = g.N, R = g.R;
+  const int tp_half = g.max_tof > 0 ? g.max_tof / 2 : 0;
+  long now = rng.range(0, 3) == 0 ? 0 : rng.range(0, 400);
+  any_delayed = false;
+  const int p_time = rng.range(8, 30);
+  for (int i = 0; i < nrec; ++i)
+    {
+      Rec r;
+      if (rng.range(0, 99) < p_time && !(i == 0 && rng.coin()))
+        {
+          r.is_time = true;
+          r.ms = static_cast<unsigned long>(now);
+          mark_times.push_back(now);
+          recs.push_back(r);
+          long step = rng.range(0, 9) == 0 ? 0 : rng.range(1, 120);
+          if (kind == 1 && rng.range(0, 3) == 0)
+            step = rng.range(300, 2500);
+          now += step;
+          continue;
+        }
+      r.prompt = rng.range(0, 4) != 0;
+      any_delayed = any_delayed || !r.prompt;
+      if (rng.range(0, 9) < 8)
+        {
+          r.d1 = rng.range(0, N - 1);
+          do
+            r.d2 = rng.range(0, N - 1);
+          while (r.d2 == r.d1);
+          r.r1 = rng.range(0, R - 1);
+          r.r2 = rng.range(0, R - 1);
+          r.tp = rng.range(-tp_half, tp_half);
+        }
+      else
+        {
+          r.raw = true;
+          const int seg = rng.range(tpl.get_min_segment_num(), tpl.get_max_segment_num());
+          const int out = rng.range(0, 9);
+          int ax = rng.range(tpl.get_min_axial_pos_num(seg), tpl.get_max_axial_pos_num(seg));
+          int tang = rng.range(tpl.get_min_tangential_pos_num(), tpl.get_max_tangential_pos_num());
+          int tof = rng.range(tpl.get_min_tof_pos_num(), tpl.get_max_tof_pos_num());
+          const int by = rng.range(1, 2);
+          if (out == 0)
+            ax = rng.coin() ? tpl.get_min_axial_pos_num(seg) - by : tpl.get_max_axial_pos_num(seg) + by;
+          if (out == 1)
+            tang = rng.coin() ? tpl.get_min_tangential_pos_num() - by : tpl.get_max_tangential_pos_num() + by;
+          if (out == 2)
+            tof = rng.coin() ? tpl.get_min_tof_pos_num() - by : tpl.get_max_tof_pos_num() + by;
+          r.rawbin = Bin(seg, rng.range(tpl.get_min_view_num(), tpl.get_max_view_num()), ax, tang, tof, out == 4 ? (rng.coin() ? 0.F : -1.F) : 1.F);
+        }
+      recs.push_back(r);
+    }
+  t_end = now;
+  return recs;
+}
+
+struct Sel
+{
+  bool use_frames = false;
+  std::vector<std::pair<long, long>> frames; // ms
+  int k = 1;                                 // 1-based frame number
+  long num_events = 0;                       // num_events_to_use
+  unsigned long cache = 0;                   // max cache size (0: no cache files)
+  int nsub = 1;
+  std::string str() const
+  {
+    std::ostringstream s;
+    s << "frames=" << frames.size();
+    for (auto& f : frames)
+      s << ":" << f.first << "-" << f.second;
+    s << " k=" << k << " nev=" << num_events << " cache=" << cache << " nsub=" << nsub;
+    return s.str();
+  }
+};
+
+// the events of the requested frame, by the property's own reading: prompt events whose preceding time mark lies in the frame
+// and whose bin (data geometry, processed segments) is inside the data; in stream order
+static std::vector<Key>
+events_of_frame(const Geo& g, const std::vector<Rec>& recs, const Sel& s, bool whole_stream = false)
+{
+  const ProjDataInfoCylindricalNoArcCorr& t = dynamic_cast<const ProjDataInfoCylindricalNoArcCorr&>(*g.pdi_proc);
+  std::vector<Key> ev;
+  long cur = 0;
+  for (auto& r : recs)
+    {
+      if (r.is_time)
+        {
+          cur = static_cast<long>(r.ms);
+          continue;
+        }
+      if (!whole_stream && s.use_frames && s.num_events == 0 && !(s.frames[s.k - 1].first <= cur && cur < s.frames[s.k - 1].second))
+        continue;
+      if (!whole_stream && s.use_frames && s.num_events != 0 && cur < s.frames[s.k - 1].first)
+        continue;
+      if (!r.prompt)
+        continue;
+      const Decoded d = decode_independent(t, r);
+      if (!d.valid)
+        continue;
+      ev.push_back(d.key);
+      if (!whole_stream && s.num_events != 0 && static_cast<long>(ev.size()) == s.num_events)
+        break;
+    }
+  return ev;
+}
+
+static std::string g_cache_dir;
+
+static void
+clean_cache_dir()
+{
+  DIR* d = ::opendir(g_cache_dir.c_str());
+  if (!d)
+    return;
+  while (dirent* e = ::readdir(d))
+    {
+      const std::string n = e->d_name;
+      if (n != "." && n != "..")
+        ::unlink((g_cache_dir + "/" + n).c_str());
+    }
+  ::closedir(d);
+}
+
+static shared_ptr<BinNormalisation>
+make_norm(const Geo& g)
+{
+  if (g.norm)
+    return shared_ptr<BinNormalisation>(new BinNormalisationFromProjData(g.norm_data));
+  return shared_ptr<BinNormalisation>(new TrivialBinNormalisation);
+}
+
+static void
+configure_lm(LMObj& obj, const Geo& g, const shared_ptr<SynLM>& lm, const Sel& s, const shared_ptr<ProjData>& add)
+{
+  obj.set_input_data(lm);
+  obj.set_proj_matrix(make_pm(g.symflags));
+  if (g.additive)
+    obj.set_additive_proj_data_sptr(add);
+  obj.set_normalisation_sptr(make_norm(g));
+  obj.set_max_segment_num_to_process(g.maxseg);
+  obj.set_use_subset_sensitivities(true);
+  obj.set_num_subsets(s.nsub);
+  if (s.use_frames)
+    {
+      std::vector<std::pair<double, double>> ft;
+      for (auto& fr : s.frames)
+        ft.push_back(std::make_pair(fr.first / 1000., fr.second / 1000.));
+      obj.frame_defs = TimeFrameDefinitions(ft);
+    }
+  else
+    obj.frame_defs = TimeFrameDefinitions();
+  if (!obj.set_keys(s.use_frames ? s.k : 1, s.num_events))
+    throw std::runtime_error("parse");
+  obj.set_cache_path(g_cache_dir);
+  obj.set_cache_max_size(s.cache);
+  obj.set_recompute_cache(true);
+}
+
+struct Results
+{
+  bool ok = false;
+  std::string err;
+  std::vector<std::vector<float>> gps, grad, sens, hess; // per subset
+  std::vector<double> value, value2;                     // per subset, at lam and at x
+  std::vector<float> full_grad;
+};
+
+template <class ObjT>
+static void
+compute_all(Results& r, ObjT& obj, const Geo& g, int nsub, bool with_value)
+{
+  shared_ptr<TargetT> xim(g.image->clone());
+  std::copy(g.x.begin(), g.x.end(), xim->begin_all());
+  for (int s = 0; s < nsub; ++s)
+    {
+      shared_ptr<TargetT> out(g.image->get_empty_copy());
+      obj.compute_sub_gradient_without_penalty_plus_sensitivity(*out, *g.image, s);
+      r.gps.push_back(to_vec(*out));
+      out->fill(0.F);
+      obj.compute_sub_gradient_without_penalty(*out, *g.image, s);
+      r.grad.push_back(to_vec(*out));
+      r.sens.push_back(to_vec(obj.get_subset_sensitivity(s)));
+      out->fill(0.F);
+      if (obj.accumulate_sub_Hessian_times_input_without_penalty(*out, *g.image, *xim, s) != Succeeded::yes)
+        throw std::runtime_error("hessian");
+      r.hess.push_back(to_vec(*out));
+      if (with_value)
+        {
+          r.value.push_back(obj.compute_objective_function_without_penalty(*g.image, s));
+          r.value2.push_back(obj.compute_objective_function_without_penalty(*xim, s));
+        }
+    }
+  shared_ptr<TargetT> out(g.image->get_empty_copy());
+  obj.compute_gradient_without_penalty(*out, *g.image);
+  r.full_grad = to_vec(*out);
+  r.ok = true;
+}
+
+static Results
+run_lm(const Geo& g, const std::vector<Rec>& recs, bool has_delayeds, const Sel& s, bool with_value = true)
+{
+  Results r;
+  try
+    {
+      shared_ptr<SynLM> lm(new SynLM(g.pdi, recs, has_delayeds));
+      LMObj obj;
+      configure_lm(obj, g, lm, s, g.add_data);
+      if (obj.set_up(g.image) != Succeeded::yes)
+        {
+          r.err = "set_up";
+          clean_cache_dir();
+          return r;
+        }
+      compute_all(r, obj, g, s.nsub, with_value);
+    }
+  catch (std::exception& e)
+    {
+      r.ok = false;
+      r.err = std::string("exception: ") + e.what();
+    }
+  catch (...)
+    {
+      r.ok = false;
+      r.err = "exception";
+    }
+  clean_cache_dir();
+  return r;
+}
+
+static Results
+run_pd(const Geo& g, const shared_ptr<ProjData>& y, const Sel& s)
+{
+  Results r;
+  try
+    {
+      PDObj obj;
+      obj.set_proj_data_sptr(y);
+      shared_ptr<ProjectorByBinPair> pair(new ProjectorByBinPairUsingProjMatrixByBin(make_pm(g.symflags)));
+      obj.set_projector_pair_sptr(pair);
+      if (g.additive)
+        obj.set_additive_proj_data_sptr(g.add_data);
+      obj.set_normalisation_sptr(make_norm(g));
+      obj.set_zero_seg0_end_planes(false);
+      obj.set_max_segment_num_to_process(g.maxseg);
+      obj.set_use_subset_sensitivities(true);
+      obj.set_num_subsets(s.nsub);
+      if (obj.set_up(g.image) != Succeeded::yes)
+        {
+          r.err = "set_up";
+          return r;
+        }
+      compute_all(r, obj, g, s.nsub, true);
+    }
+  catch (std::exception& e)
+    {
+      r.ok = false;
+      r.err = std::string("exception: ") + e.what();
+    }
+  catch (...)
+    {
+      r.ok = false;
+      r.err = "exception";
+    }
+  return r;
+}
+
+// textbook evaluation in double precision on explicit rows
+struct Text
+{
+  std::vector<double> gps, hess, sens; // values (all terms have one sign: the value is the sum of the magnitudes)
+  std::vector<double> tol_gps, tol_hess, tol_sens;
+  double logsum = 0, logsum2 = 0, logmag = 0; // sum over events of log(ybar) at lam and at x; magnitude
+  double sens_dot_lam = 0, sens_dot_x = 0, addmag = 0;
+  long nevents = 0;
+};
+
+static double
+dot(const BinRow& b, const std::vector<float>& x)
+{
+  double s = 0;
+  for (auto& e : b.row)
+    s += double(e.second) * double(x[e.first]);
+  return s;
+}
+
+static const double U24 = 1. / 16777216.;
+
+static Text
+textbook(const Geo& g, const std::map<Key, BinRow>& rows, const std::vector<Key>& events, int nsub, int subset, bool last_tof_add)
+{
+  const int nvox = g.ix.size();
+  Text t;
+  t.gps.assign(nvox, 0.), t.hess.assign(nvox, 0.), t.sens.assign(nvox, 0.);
+  std::vector<long> cnt(nvox, 0), scnt(nvox, 0);
+  std::size_t L = 0;
+  for (auto& k : events)
+    {
+      const BinRow& b = rows.at(k);
+      if (nsub > 1 && b.basic_view % nsub != subset)
+        continue;
+      ++t.nevents;
+      L = std::max(L, b.row.size());
+      const double addv = g.additive ? double(last_tof_add ? b.a_last : b.a) : 0.;
+      const double ybar = dot(b, g.lam) + addv;
+      const double ybar2 = dot(b, g.x) + addv;
+      t.addmag += addv;
+      const double ax = dot(b, g.x);
+      if (!b.row.empty() || g.additive)
+        {
+          t.logsum += std::log(ybar);
+          t.logsum2 += std::log(ybar2);
+          t.logmag += 1. + std::fabs(std::log(ybar)) + std::fabs(std::log(ybar2));
+        }
+      for (auto& e : b.row)
+        {
+          t.gps[e.first] += double(e.second) / ybar;
+          t.hess[e.first] -= double(e.second) * ax / (ybar * ybar);
+          cnt[e.first]++;
+        }
+    }
+  std::size_t Ls = 0;
+  for (auto& b : g.sens_rows)
+    {
+      if (nsub > 1 && b.basic_view % nsub != subset)
+        continue;
+      Ls = std::max(Ls, b.row.size());
+      for (auto& e : b.row)
+        {
+          t.sens[e.first] += double(e.second) / double(b.nrm);
+          scnt[e.first]++;
+        }
+    }
+  t.tol_gps.resize(nvox), t.tol_hess.resize(nvox), t.tol_sens.resize(nvox);
+  for (int v = 0; v < nvox; ++v)
+    {
+      t.tol_gps[v] = 4. * double(L + cnt[v] + 10) * U24 * t.gps[v] + 1e-30;
+      t.tol_hess[v] = 4. * double(3 * L + cnt[v] + 10) * U24 * std::fabs(t.hess[v]) + 1e-30;
+      t.tol_sens[v] = 4. * double(Ls + scnt[v] + 10) * U24 * t.sens[v] + 1e-30;
+      t.sens_dot_lam += t.sens[v] * g.lam[v];
+      t.sens_dot_x += t.sens[v] * g.x[v];
+    }
+  return t;
+}
+
+static int
+first_bad(const std::vector<float>& a, const std::vector<double>& b, const std::vector<double>& tol, double factor)
+{
+  if (a.size() != b.size())
+    return 0;
+  for (std::size_t i = 0; i < a.size(); ++i)
+    if (!(std::fabs(double(a[i]) - b[i]) <= factor * tol[i]))
+      return static_cast<int>(i);
+  return -1;
+}
+
+static int
+first_bad(const std::vector<float>& a, const std::vector<float>& b, const std::vector<double>& tol, double factor)
+{
+  return first_bad(a, std::vector<double>(b.begin(), b.end()), tol, factor);
+}
+
+static std::string
+at(const char* what, int v, double a, double b)
+{
+  std::ostringstream s;
+  s << what << " differ at voxel " << v << ": " << vh::hex(a) << " (" << a << ") vs " << vh::hex(b) << " (" << b << ")";
+  return s.str();
+}
+
+static bool
+bitwise_equal(const Results& a, const Results& b)
+{
+  return a.gps == b.gps && a.grad == b.grad && a.sens == b.sens && a.hess == b.hess && a.full_grad == b.full_grad;
+}
+
+static std::string
+lmcfg_line(const Geo& g, const Sel& s)
+{
+  const bool frames = s.use_frames;
+  const long fs = frames ? s.frames[s.k - 1].first : 0, fe = frames ? s.frames[s.k - 1].second : 0;
+  // do_time_frame as set_up_before_sensitivity computes it
+  const bool dtf = frames && s.num_events == 0 && fs < fe;
+  std::ostringstream o;
+  o << "lmcfg nvox=" << g.ix.size() << " dtf=" << (dtf ? 1 : 0) << " s=" << fs << " e=" << fe << " nev=" << s.num_events << " cache="
+    << (s.cache == 0 ? 1000000UL : s.cache) << " nsub=" << s.nsub << " add=" << (g.additive ? 1 : 0);
+  return o.str();
+}
+
+static void
+run_family(vh::Rng& rng, bool thorough)
+{
+  g_cache_dir = g_tmpdir + "/lmcache";
+  ::mkdir(g_cache_dir.c_str(), 0777);
+  const int ncases = thorough ? 420 : 56;
+  for (int ci = 0; ci < ncases; ++ci)
+    {
+      Geo g;
+      bool built = false;
+      try
+        {
+          built = make_geo(g, rng);
+        }
+      catch (...)
+        {}
+      if (!built)
+        {
+          g_stat["lmo_geometry_rejected"]++;
+          continue;
+        }
+      g_stat["lmo_cases"]++;
+      g_stat[g.pdi->is_tof_data() ? "lmo_tof" : "lmo_nontof"]++;
+      if (g.additive)
+        g_stat["lmo_additive"]++;
+      if (g.norm)
+        g_stat["lmo_norm_from_projdata"]++;
+      if (g.maxseg >= 0)
+        g_stat["lmo_max_segment"]++;
+
+      // ---- streams (monotone marks; every fifth with gaps between the marks)
+      std::vector<long> marks, marks2;
+      long t_end = 0, t_end2 = 0;
+      bool anyd = false, anyd2 = false;
+      const std::vector<Rec> recs = gen_stream(rng, g, ci % 5 == 3 ? 1 : 0, rng.range(60, thorough ? 500 : 400), marks, t_end, anyd);
+      const std::vector<Rec> recs2 = gen_stream(rng, g, 0, rng.range(30, 120), marks2, t_end2, anyd2);
+
+      // ---- what to compute: frames, cache size, subsets
+      Sel s;
+      {
+        std::vector<int> divs;
+        for (int d = 1; d <= g.views; ++d)
+          if (g.views % d == 0)
+            divs.push_back(d);
+        s.nsub = rng.range(0, 2) == 0 ? 1 : divs[rng.range(0, static_cast<int>(divs.size()) - 1)];
+        const int fk = rng.range(0, 9);
+        if (fk >= 3)
+          {
+            s.use_frames = true;
+            std::set<long> bs;
+            const int nb = rng.range(2, 4);
+            for (int k = 0; k < nb + 3 && static_cast<int>(bs.size()) < nb; ++k)
+              {
+                long b = (!marks.empty() && rng.range(0, 3) != 0) ? marks[rng.range(0, static_cast<int>(marks.size()) - 1)]
+                                                                   : rng.range(0, static_cast<int>(t_end + 200));
+                if (b <= 10)
+                  b = rng.coin() ? 0 : 11 + rng.range(0, 50);
+                bs.insert(b);
+              }
+            std::vector<long> b(bs.begin(), bs.end());
+            if (b.size() < 2)
+              b.push_back(b.back() + 50);
+            for (std::size_t k = 0; k + 1 < b.size(); ++k)
+              if (b[k + 1] > 10)
+                s.frames.push_back(std::make_pair(b[k], b[k + 1]));
+            if (s.frames.empty())
+              s.frames.push_back(std::make_pair(b[0], std::max<long>(b[1], 11)));
+            s.k = rng.range(1, static_cast<int>(s.frames.size()));
+            if (rng.range(0, 2) != 0)
+              {
+                // mostly the frame with most events
+                std::size_t best = 0;
+                for (int k = 1; k <= static_cast<int>(s.frames.size()); ++k)
+                  {
+                    Sel sk = s;
+                    sk.k = k;
+                    const std::size_t n = events_of_frame(g, recs, sk).size();
+                    if (n > best)
+                      best = n, s.k = k;
+                  }
+              }
+          }
+      }
+      const std::vector<Key> all_events = events_of_frame(g, recs, s, true);
+      if (!s.use_frames && !all_events.empty() && rng.range(0, 1) == 0)
+        s.num_events = rng.range(1, static_cast<int>(all_events.size()) + 2); // num_events_to_use (whole stream: no frame definitions)
+      std::vector<Key> events = events_of_frame(g, recs, s);
+      {
+        const long ne = static_cast<long>(events.size());
+        const int ck = rng.range(0, 9);
+        // 0: no cache files (one batch of 10^6); else cache files with batches of the given number of events
+        static const unsigned long small[] = { 1, 2, 3, 5, 7 };
+        s.cache = ck < 3 ? 0UL : (ck < 6 ? small[rng.range(0, 4)] : (ck == 6 ? std::max<long>(1, ne / 2) : (ck == 7 ? std::max<long>(1, ne) : (ck == 8 ? ne + 1 : 1000))));
+      }
+      g_stat[s.cache == 0 ? "lmo_no_cache" : (s.cache < events.size() ? "lmo_cache_several_batches" : "lmo_cache_one_batch")]++;
+      if (s.cache != 0 && !events.empty() && events.size() % s.cache == 0)
+        g_stat["lmo_cache_exact_multiple"]++;
+      g_stat[s.use_frames ? "lmo_with_frames" : "lmo_whole_stream"]++;
+      g_stat[s.nsub > 1 ? "lmo_several_subsets" : "lmo_one_subset"]++;
+      if (s.num_events > 0)
+        g_stat["lmo_num_events_to_use"]++;
+      g_stat["lmo_events"] += static_cast<long>(events.size());
+      const std::string ctx = g.str() + " " + s.str() + " case=" + std::to_string(ci);
+
+      // ---- explicit rows of the bins of all accepted prompt events of the stream
+      std::map<Key, BinRow> rows;
+      {
+        shared_ptr<ProjMatrixByBinUsingRayTracing> pm = make_pm(g.symflags);
+        pm->set_up(g.pdi_proc, g.image);
+        for (auto& k : all_events)
+          if (!rows.count(k))
+            {
+              BinRow b;
+              b.key = k;
+              fill_row(b, *pm, g.ix);
+              b.a = g.additive ? projdata_at(*g.add_data, std::get<1>(k), std::get<2>(k), std::get<3>(k), std::get<4>(k), std::get<0>(k)) : 0.F;
+              b.a_last = g.additive ? projdata_at(*g.add_data, std::get<1>(k), std::get<2>(k), std::get<3>(k), std::get<4>(k), g.pdi->get_max_tof_pos_num()) : 0.F;
+              rows[k] = b;
+            }
+      }
+
+      // ---- (a) the real list-mode objective
+      const Results lm = run_lm(g, recs, anyd, s);
+      // ---- (b) real histogram (prompts only, same frame) + real projection-data objective
+      Hist hist_expected;
+      for (auto& k : events)
+        hist_expected[k] += 1;
+      shared_ptr<ProjData> y;
+      bool hist_ok = false;
+      {
+        RunCfg c;
+        c.storeP = true, c.storeD = false;
+        c.in_memory = 1;
+        if (s.use_frames)
+          c.frames.push_back(s.frames[s.k - 1]);
+        c.num_events = s.num_events;
+        c.max_seg_proc = g.maxseg;
+        c.segs = rng.range(0, 1) ? -1 : 1;
+        const RunResult rr = run_impl(g.pdi, g.pdi, recs, anyd, c, nullptr, &y);
+        ++g_checks;
+        if (rr.err || !y)
+          oracle_fail("lm-objective: LmToProjData rejected the configuration " + ctx);
+        else if (!same_hist(rr.frames.back(), hist_expected) || !rr.integral)
+          {
+            if (s.use_frames && frame_in_gap(recs, c.frames))
+              {
+                g_stat["lmo_gap_mismatch"]++;
+                known_candidate("lm2pd:frame-inside-time-mark-gap",
+                                "LmToProjData::process_data: when two consecutive time marks jump over a whole time frame the events "
+                                "that follow the later mark are histogrammed into that frame (seen while histogramming for the list-mode objective)");
+              }
+            else
+              oracle_fail("lm-objective: LmToProjData histogram differs from the count over the event list: " + ctx);
+          }
+        else
+          hist_ok = true;
+      }
+      // the histogram was made with 'maximum absolute segment number to process': give the objective the full geometry
+      shared_ptr<ProjData> yfull;
+      if (hist_ok)
+        {
+          yfull.reset(new ProjDataInMemory(g.exam, g.pdi->create_shared_clone()));
+          yfull->fill(0.F);
+          for (int tof = y->get_min_tof_pos_num(); tof <= y->get_max_tof_pos_num(); ++tof)
+            for (int seg = y->get_min_segment_num(); seg <= y->get_max_segment_num(); ++seg)
+              {
+                SegmentByView<float> sv = yfull->get_empty_segment_by_view(seg, false, tof);
+                const SegmentByView<float> src = y->get_segment_by_view(seg, tof);
+                std::copy(src.begin_all(), src.end_all(), sv.begin_all());
+                yfull->set_segment(sv);
+              }
+        }
+      Results pd;
+      if (hist_ok)
+        pd = run_pd(g, yfull, s);
+
+      if (!lm.ok || (hist_ok && !pd.ok))
+        {
+          if (!lm.ok && hist_ok && !pd.ok && lm.err == "set_up" && pd.err == "set_up")
+            {
+              g_stat["lmo_both_refuse_set_up"]++; // unbalanced subsets for the symmetries of the matrix
+              continue;
+            }
+          ++g_checks;
+          if (!lm.ok && hist_ok && pd.ok && lm.err == "set_up" && s.nsub > 1)
+            {
+              g_stat["lmo_lm_refuses_subsets"]++;
+              continue;
+            }
+          if (lm.ok && !pd.ok && pd.err == "set_up" && s.nsub > 1)
+            {
+              g_stat["lmo_pd_refuses_subsets"]++;
+            }
+          else
+            {
+              oracle_fail("lm-objective: " + std::string(!lm.ok ? "list-mode objective failed (" + lm.err + ")" : "projection-data objective failed (" + pd.err + ")")
+                          + ": " + ctx);
+              continue;
+            }
+        }
+      g_stat["lmo_computed"]++;
+
+      // ---- textbook values per subset; classification of the outcome of the event sums
+      std::vector<Text> T, Tlast, Tall;
+      for (int sub = 0; sub < s.nsub; ++sub)
+        {
+          T.push_back(textbook(g, rows, events, s.nsub, sub, false));
+          Tlast.push_back(textbook(g, rows, events, s.nsub, sub, true));
+          Tall.push_back(textbook(g, rows, all_events, s.nsub, sub, false));
+        }
+      auto all_subsets_ok = [&](const std::vector<Text>& tt) {
+        for (int sub = 0; sub < s.nsub; ++sub)
+          if (first_bad(lm.gps[sub], tt[sub].gps, tt[sub].tol_gps, 1.) >= 0 || first_bad(lm.hess[sub], tt[sub].hess, tt[sub].tol_hess, 1.) >= 0)
+            return false;
+        return true;
+      };
+      // 0: as the property says; 1..3: a known class of defect (stable key), event sums compared with what that defect gives
+      int mode = 0;
+      if (!all_subsets_ok(T))
+        {
+          bool zero = true, expect_nonzero = false;
+          for (int sub = 0; sub < s.nsub; ++sub)
+            {
+              for (float v : lm.gps[sub])
+                zero = zero && v == 0.F;
+              for (float v : lm.hess[sub])
+                zero = zero && v == 0.F;
+              for (double v : T[sub].gps)
+                expect_nonzero = expect_nonzero || v != 0.;
+            }
+          if (zero && expect_nonzero)
+            mode = 1;
+          else if (g.additive && g.pdi->is_tof_data() && all_subsets_ok(Tlast))
+            mode = 2;
+          else if (s.num_events > 0 && s.cache != 0 && static_cast<long>(s.cache) < s.num_events && all_subsets_ok(Tall))
+            mode = 3;
+        }
+      if (mode == 1)
+        {
+          g_stat["lmo_known_event_sums_zero"]++;
+          known_candidate("lmobj:build-without-openmp:event-sums-never-added-to-the-output",
+                          "LM_distributable_computation (distributable.txx) accumulates the contributions of the events in local_output_image_sptrs[thread] and adds "
+                          "those to the output image only inside #ifdef STIR_OPENMP: in a build without OpenMP (the baseline build) compute_sub_gradient_without_penalty_plus_sensitivity "
+                          "of the list-mode objective returns 0 for every image, compute_sub_gradient_without_penalty returns minus the subset sensitivity and "
+                          "accumulate_sub_Hessian_times_input_without_penalty adds nothing, whatever the events are; e.g. " + ctx);
+        }
+      if (mode == 2)
+        {
+          g_stat["lmo_known_tof_additive_last_bin"]++;
+          known_candidate("lmobj:tof-data:additive-term-of-the-last-tof-bin-used-for-every-event",
+                          "read_listmode_batch caches the additive term of an event in a loop over (segment, timing_pos) that tests only the segment of the event: every "
+                          "event gets the value of the additive sinogram at its (segment, view, axial, tangential) position in the LAST TOF bin, not in its own; the "
+                          "list-mode gradient then differs from the projection-data gradient of the histogrammed data whenever the additive term depends on the TOF bin; e.g. "
+                              + ctx);
+        }
+      if (mode == 3)
+        {
+          g_stat["lmo_known_num_events_per_batch"]++;
+          known_candidate("lmobj:num_events_to_use-is-counted-per-batch",
+                          "read_listmode_batch counts num_events_to_use with a counter that restarts in every batch: with max cache size < num_events_to_use (or without "
+                          "cache files and num_events_to_use > 1000000) no batch ever reaches the count and ALL events of the stream are used; e.g. " + ctx);
+        }
+      const std::vector<Text>& TX = mode == 2 ? Tlast : (mode == 3 ? Tall : T);
+
+      // ---- (c) ops for the Lean model: the list-mode gradient (plus sensitivity) per subset
+      emit_cfg(*g.pdi_proc);
+      emit(stream_line(*g.pdi_proc, g.pdi, recs), "ok " + std::to_string(recs.size()));
+      emit(lmcfg_line(g, s), "ok");
+      emit("lmimg " + hexvec(g.lam), "ok");
+      for (auto& kv : rows)
+        {
+          const BinRow& b = kv.second;
+          std::ostringstream o;
+          o << "lmbin " << std::get<1>(b.key) << ' ' << std::get<2>(b.key) << ' ' << std::get<3>(b.key) << ' ' << std::get<4>(b.key) << ' '
+            << std::get<0>(b.key) << ' ' << b.basic_view << ' ' << (g.additive ? vh::hex(b.a) : std::string("-")) << ' ' << b.row.size();
+          for (auto& e : b.row)
+            o << ' ' << e.first << ' ' << vh::hex(e.second);
+          emit(o.str(), "ok");
+        }
+      // (in modes 1..3 the implementation is known not to compute the sum over the events that the model describes:
+      //  reported above with a stable key, not compared)
+      if (mode == 0)
+        {
+          for (int sub = 0; sub < s.nsub; ++sub)
+            emit("lmgps " + std::to_string(sub), hexvec(lm.gps[sub]));
+          g_stat["lmo_model_gradients"] += s.nsub;
+        }
+      else
+        g_stat["lmo_model_gradients_skipped_known_defect"] += s.nsub;
+
+      // ---- oracle
+      const bool tof = g.pdi->is_tof_data();
+      const bool sums_ok = mode != 1;              // the event sums can be compared with a textbook value
+      const bool pd_sums_ok = mode == 0 && hist_ok && pd.ok; // … and with the projection-data objective
+      std::vector<double> sum_grad(g.ix.size(), 0.), sum_tol(g.ix.size(), 0.);
+      for (int sub = 0; sub < s.nsub; ++sub)
+        {
+          const Text& t = TX[sub];
+          const std::string c2 = ctx + " subset=" + std::to_string(sub) + " events=" + std::to_string(t.nevents);
+          int bad;
+          // list-mode objective against the textbook expressions on the event list
+          if (sums_ok)
+            {
+              ++g_checks;
+              if ((bad = first_bad(lm.gps[sub], t.gps, t.tol_gps, 1.)) >= 0)
+                oracle_fail("lm-objective: gradient plus sensitivity != sum over the events of the frame of row/(row.image + additive): "
+                            + at("list-mode objective and event list", bad, lm.gps[sub][bad], t.gps[bad]) + " " + c2);
+              ++g_checks;
+              if ((bad = first_bad(lm.hess[sub], t.hess, t.tol_hess, 1.)) >= 0)
+                oracle_fail("lm-objective: Hessian times input != -sum over events of row (row.input)/(row.image+additive)^2: "
+                            + at("list-mode objective and event list", bad, lm.hess[sub][bad], t.hess[bad]) + " " + c2);
+            }
+          ++g_checks;
+          if ((bad = first_bad(lm.sens[sub], t.sens, t.tol_sens, 1.)) >= 0)
+            oracle_fail("lm-objective: subset sensitivity != back projection of 1/normalisation: " + at("list-mode objective and textbook", bad, lm.sens[sub][bad], t.sens[bad]) + " "
+                        + c2);
+          // both classes use the non-TOF back projection of 1/normalisation as subset sensitivity (use_tofsens off)
+          if (hist_ok && pd.ok)
+            {
+              ++g_checks;
+              if ((bad = first_bad(lm.sens[sub], pd.sens[sub], t.tol_sens, 2.)) >= 0)
+                oracle_fail("lm-objective: list-mode subset sensitivity != projection-data subset sensitivity: "
+                            + at("list-mode and projection-data objective", bad, lm.sens[sub][bad], pd.sens[sub][bad]) + " " + c2);
+              g_stat["lmo_pd_comparisons"]++;
+            }
+          {
+            // gradient = (gradient plus sensitivity) - sensitivity
+            std::vector<double> expect(g.ix.size()), tol(g.ix.size());
+            for (int v = 0; v < g.ix.size(); ++v)
+              {
+                const double ev = sums_ok ? t.gps[v] : 0.;
+                expect[v] = ev - t.sens[v];
+                tol[v] = t.tol_gps[v] + t.tol_sens[v] + 2 * U24 * (ev + t.sens[v]);
+                sum_grad[v] += expect[v];
+                sum_tol[v] += tol[v] + 4 * U24 * (ev + t.sens[v]);
+              }
+            ++g_checks;
+            if ((bad = first_bad(lm.grad[sub], expect, tol, 1.)) >= 0)
+              oracle_fail("lm-objective: sub-gradient != sum over events - subset sensitivity: " + at("list-mode objective and textbook", bad, lm.grad[sub][bad], expect[bad])
+                          + " " + c2);
+            // the property's clause: list-mode gradient == projection-data gradient of the histogrammed data, per subset
+            // (both classes assign a bin to the subset of the view of its basic bin under the symmetries of the matrix)
+            if (pd_sums_ok)
+              {
+                ++g_checks;
+                if ((bad = first_bad(lm.gps[sub], pd.gps[sub], t.tol_gps, 2.)) >= 0)
+                  oracle_fail("lm-objective: list-mode gradient plus sensitivity != projection-data one of the histogrammed data: "
+                              + at("list-mode and projection-data objective", bad, lm.gps[sub][bad], pd.gps[sub][bad]) + " " + c2);
+                ++g_checks;
+                if ((bad = first_bad(lm.hess[sub], pd.hess[sub], t.tol_hess, 2.)) >= 0)
+                  oracle_fail("lm-objective: list-mode Hessian times input != projection-data one of the histogrammed data: "
+                              + at("list-mode and projection-data objective", bad, lm.hess[sub][bad], pd.hess[sub][bad]) + " " + c2);
+                g_stat["lmo_pd_comparisons"] += 2;
+                // with the sensitivity term: for non-TOF data only.  For TOF data compute_sub_gradient_without_penalty of the projection-data
+                // class back projects (y/ybar - 1)/norm TOF bin by TOF bin, i.e. its sensitivity term is the sum over the TOF bins of the TOF
+                // back projections, while the list-mode class (and get_subset_sensitivity of both) uses the non-TOF back projection; the two
+                // agree only as far as the TOF bins cover the whole TOF kernel (they do not in the generated scanners)
+                if (!tof)
+                  {
+                    ++g_checks;
+                    if ((bad = first_bad(lm.grad[sub], pd.grad[sub], tol, 2.)) >= 0)
+                      oracle_fail("lm-objective: list-mode sub-gradient != projection-data sub-gradient of the histogrammed data: "
+                                  + at("list-mode and projection-data objective", bad, lm.grad[sub][bad], pd.grad[sub][bad]) + " " + c2);
+                    g_stat["lmo_pd_comparisons"]++;
+                  }
+              }
+          }
+          // value: differences between two images (constants independent of the image drop out)
+          if (!lm.value.empty())
+            {
+              const double tolv = 8. * 40. * U24 * (t.logmag + std::fabs(t.sens_dot_lam) + std::fabs(t.sens_dot_x) + 2. * t.addmag) + 1e-12;
+              const double d_text = (t.logsum - t.sens_dot_lam) - (t.logsum2 - t.sens_dot_x);
+              const double d_lm = lm.value[sub] - lm.value2[sub];
+              ++g_checks;
+              if (!(std::fabs(d_lm - d_text) <= tolv))
+                {
+                  g_stat["lmo_value_mismatch"]++;
+                  std::ostringstream o;
+                  o << "list-mode objective: compute_objective_function_without_penalty is not the function whose gradient compute_sub_gradient_without_penalty "
+                       "returns: value(image1) - value(image2) = "
+                    << d_lm << " but [sum over events of log(row.image+additive) - sensitivity.image] changes by " << d_text
+                    << " (the sum of the logs alone by " << (t.logsum - t.logsum2) << ", sensitivity.image alone by " << (t.sens_dot_lam - t.sens_dot_x) << ") " << c2;
+                  known_candidate("lmobj:value-is-not-the-log-likelihood", o.str());
+                }
+              if (hist_ok && pd.ok && !tof && mode == 0)
+                {
+                  const double d_pd = pd.value[sub] - pd.value2[sub];
+                  ++g_checks;
+                  if (!(std::fabs(d_pd - d_text) <= tolv))
+                    oracle_fail("lm-objective: projection-data value difference differs from the textbook one: " + vh::hex(d_pd) + " vs " + vh::hex(d_text) + " " + c2);
+                }
+            }
+        }
+      {
+        // compute_gradient_without_penalty = sum over the subsets
+        ++g_checks;
+        const int bad = first_bad(lm.full_grad, sum_grad, sum_tol, 1.);
+        if (bad >= 0)
+          oracle_fail("lm-objective: compute_gradient_without_penalty != sum over subsets: " + at("full gradient and textbook", bad, lm.full_grad[bad], sum_grad[bad]) + " " + ctx);
+        if (pd_sums_ok && !tof)
+          {
+            ++g_checks;
+            const int bad2 = first_bad(lm.full_grad, pd.full_grad, sum_tol, 2.);
+            if (bad2 >= 0)
+              oracle_fail("lm-objective: list-mode gradient != projection-data gradient of the histogrammed data: "
+                          + at("list-mode and projection-data objective", bad2, lm.full_grad[bad2], pd.full_grad[bad2]) + " " + ctx);
+          }
+      }
+
+      // ---- cache size independence: another cache size gives bitwise the same per-event sums only if the batches are
+      // accumulated in the same order — they are (stream order), but the partial sums are formed per batch: tolerance
+      if (s.num_events == 0)
+        {
+        Sel s2 = s;
+        s2.cache = s.cache == 0 ? static_cast<unsigned long>(rng.range(1, 9)) : 0UL;
+        const Results lm2 = run_lm(g, recs, anyd, s2, false);
+        ++g_checks;
+        if (!lm2.ok)
+          oracle_fail("lm-objective: failed with another cache size (" + lm2.err + "): " + ctx + " other cache=" + std::to_string(s2.cache));
+        else
+          for (int sub = 0; sub < s.nsub; ++sub)
+            {
+              const Text& t = TX[sub];
+              const int bad = first_bad(lm2.gps[sub], lm.gps[sub], t.tol_gps, 2.);
+              if (bad >= 0)
+                oracle_fail("lm-objective: result depends on the cache size: " + at("gradient plus sensitivity", bad, lm2.gps[sub][bad], lm.gps[sub][bad]) + " " + ctx
+                            + " other cache=" + std::to_string(s2.cache));
+            }
+        g_stat["lmo_cache_size_pairs"]++;
+      }
+
+      // ---- (d) histories: change something on a set-up object, set_up again: must equal a fresh object (bitwise)
+      if (ci % 2 == 0)
+        {
+          const int what = rng.range(0, 5);
+          Sel s1 = s, s2 = s;
+          const std::vector<Rec>*r1 = &recs, *r2 = &recs;
+          bool add_changed = false;
+          std::string hname;
+          switch (what)
+            {
+            case 0: // another stream
+              r1 = &recs2;
+              s1.use_frames = false;
+              s1.frames.clear();
+              s1.k = 1;
+              hname = "set_input_data(other stream)";
+              break;
+            case 1: // another frame of the same definitions
+              if (s.use_frames && s.frames.size() > 1)
+                {
+                  s1.k = s.k == 1 ? 2 : s.k - 1;
+                  hname = "time frame number";
+                }
+              else
+                {
+                  s1.use_frames = true;
+                  s1.frames = { { 0, std::max<long>(20, t_end / 2) } };
+                  s1.k = 1;
+                  hname = "frame definitions";
+                }
+              break;
+            case 2: // other frame definitions
+              s1.use_frames = true;
+              s1.frames = { { std::max<long>(0, t_end / 3), std::max<long>(20, t_end / 3 + 40) } };
+              s1.k = 1;
+              hname = "frame definitions";
+              break;
+            case 3: // other cache size
+              s1.cache = s.cache == 0 ? 2 : (s.cache == 1 ? 5 : 1);
+              hname = "set_cache_max_size";
+              break;
+            case 4: // other additive term
+              add_changed = true;
+              hname = "set_additive_proj_data_sptr";
+              break;
+            default: // other number of subsets
+              s1.nsub = s.nsub == 1 ? (g.views % 2 == 0 ? 2 : 1) : 1;
+              hname = "set_num_subsets";
+              break;
+            }
+          Results after;
+          std::string herr;
+          try
+            {
+              shared_ptr<SynLM> lm1(new SynLM(g.pdi, *r1, true));
+              shared_ptr<SynLM> lm2(new SynLM(g.pdi, *r2, anyd));
+              LMObj obj;
+              configure_lm(obj, g, lm1, s1, add_changed ? g.add_data2 : g.add_data);
+              if (obj.set_up(g.image) == Succeeded::yes)
+                {
+                  Results first;
+                  compute_all(first, obj, g, s1.nsub, false); // fills every cache of the object
+                  // now the final configuration through the same setters
+                  configure_lm(obj, g, lm2, s2, g.add_data);
+                  if (obj.set_up(g.image) != Succeeded::yes)
+                    herr = "second set_up refused";
+                  else
+                    compute_all(after, obj, g, s2.nsub, false);
+                }
+              else
+                herr = "skip";
+            }
+          catch (std::exception& e)
+            {
+              herr = std::string("exception: ") + e.what();
+            }
+          catch (...)
+            {
+              herr = "exception";
+            }
+          clean_cache_dir();
+          if (herr != "skip")
+            {
+              ++g_checks;
+              g_stat["lmo_histories"]++;
+              const bool frame_change = (what == 1 || what == 2 || (what == 0 && s.use_frames));
+              if (!herr.empty() || !bitwise_equal(after, lm))
+                {
+                  std::string text = "list-mode objective, history: configure, set_up, compute, then " + hname + " (back to the configuration of a fresh object), set_up: "
+                                     + (herr.empty() ? std::string("results differ from a fresh object's") : herr) + " " + ctx;
+                  if (frame_change && herr.find("end times do not match") != std::string::npos)
+                    {
+                      g_stat["lmo_history_end_time_mismatch"]++;
+                      known_candidate("lmobj:set-up-again-with-another-frame:stale-end_time_per_batch", text);
+                    }
+                  else
+                    oracle_fail(text);
+                }
+            }
+        }
+    }
+  clean_cache_dir();
+  ::rmdir(g_cache_dir.c_str());
+}
+} // namespace lmo
+
 int
 main(int argc, char** argv)
 {
@@ -797,6 +1968,8 @@ main(int argc, char** argv)
   vh::quiet();
   vh::Rng rng(std::strtoull(argv[1], nullptr, 10) * 1315423911ULL + 14);
   const bool thorough = std::string(argv[2]) == "thorough";
+  // optional 5th argument (development only): "hist" = family 1 only, "lmobj" = family 2 only
+  const std::string only = argc > 5 ? argv[5] : "";
   g_ops = std::fopen(argv[3], "w");
   g_out = std::fopen(argv[4], "w");
   g_orc = std::fopen((std::string(argv[4]) + ".oracle").c_str(), "w");
@@ -878,7 +2051,7 @@ main(int argc, char** argv)
   }
 
   // ------------------------------------------------------------------ generated cases
-  const int ncases = thorough ? 2000 : 240;
+  const int ncases = only == "lmobj" ? 0 : (thorough ? 2000 : 240);
   for (int ci = 0; ci < ncases; ++ci)
     {
       Case cs;
@@ -1255,6 +2428,13 @@ main(int argc, char** argv)
           do_run(cs, c, false, "store-nothing");
           g_stat["malformed_runs"]++;
         }
+    }
+
+  // ------------------------------------------------------------------ family 2: the list-mode objective function
+  if (only != "hist")
+    {
+      vh::Rng rng2(std::strtoull(argv[1], nullptr, 10) * 2654435761ULL + 1414);
+      lmo::run_family(rng2, thorough);
     }
 
   std::fprintf(g_orc, "STATS");
